@@ -84,6 +84,11 @@ CHECKS = {
             'RepetitionCodeDescription.from_connectivity for all subsets up to size 4 (thorough: all subsets) of the gate-taking qubits of each layout, all orderings of small subsets; composite '
             'descriptions with every single and pair of excluded edges / qubits, with and without only-required parking.',
             'finite: shipped tables and the stated subsets; reference device model mc/ref/freq.py'),
+    'C09': (EX, '4/C09', 'exhaustive enumeration of constructor inputs; exported program executed on a tableau simulator vs classical protocol model',
+            'Distance 2..4 (thorough 5) x all 2^(2d-1) computational states of data and ancilla qubits x cycles 0..6 x refocusing on/off for chain descriptions, plus every contiguous '
+            'sub-chain of the three shipped layouts through from_connectivity; each circuit as built, unrolled and flattened: every measurement deterministic (peek_z), the record equal to the '
+            'protocol model per qubit in time order, (d-1)(cycles+1) detectors, one observable, detector_error_model() succeeds.',
+            'finite input box; Stim trusted as executor; protocol model mc/ref/protocol.py'),
 }
 
 
